@@ -240,6 +240,22 @@ Proof.
   - exact (chars_le_limit wrap Hw nicklen msgType user message len H1).
 Qed.
 
+(** what the receiver reconstructs from a sent line (low-level dequoting of the decoded line) is
+    fmt ++ piece itself; with textwrap's whitespace normalisation (pieces contain no CR / LF) no CR or
+    LF of the text travels quoted and comes back inside the delivered message *)
+Lemma reconstructed_clean :
+  forall (wrap : list N -> Z -> list (list N)),
+  (forall l w p c, In p (wrap l w) -> In c p -> c <> 10 /\ c <> 13) ->
+  forall (w : Z) (fmt message p : list N) (c : N),
+  (forall x, In x fmt -> x <> 10 /\ x <> 13) ->
+  In p (pieces_of wrap w message) ->
+  lowDequote (lowQuote (fmt ++ p)) = fmt ++ p /\ (In c (lowDequote (lowQuote (fmt ++ p))) -> c <> 10 /\ c <> 13).
+Proof.
+  intros wrap Hws w fmt message p c Hfmt Hp. split; [apply low_roundtrip|].
+  rewrite low_roundtrip. intros Hc. apply in_app_or in Hc. destruct Hc as [Hc | Hc]; [exact (Hfmt c Hc)|].
+  unfold pieces_of in Hp. apply in_flat_map in Hp. destruct Hp as [l [_ Hp]]. exact (Hws l w p c Hp Hc).
+Qed.
+
 (** ---------------- the octet limit is false in general (F17) ---------------- *)
 
 Definition ex_msgType : list N := [80; 82; 73; 86; 77; 83; 71].     (* PRIVMSG *)
